@@ -531,16 +531,29 @@ func dumpAll() string {
 	}
 }
 
+// workerWaitsForLibauditLock: the worker is in a mutex wait under a go-libaudit frame, and still is a
+// little later (only the scheduled worker runs, so nobody can release the lock in between).
 func workerWaitsForLibauditLock(id int64) bool {
+	if !IsLibauditLockWait(goroutineBlock(dumpAll(), id)) {
+		return false
+	}
+	time.Sleep(20 * time.Millisecond)
 	return IsLibauditLockWait(goroutineBlock(dumpAll(), id))
 }
 
-// IsLibauditLockWait reports whether a goroutine dump shows a goroutine blocked
-// on a mutex under a go-libaudit frame.
+// IsLibauditLockWait reports whether a goroutine dump shows a goroutine BLOCKED on a mutex under a
+// go-libaudit frame. The goroutine's state (the bracket of its header line) must be a mutex wait: a
+// goroutine that was merely preempted while running inside Lock() is "runnable"/"running" and does not
+// count.
 func IsLibauditLockWait(dump string) bool {
 	for _, g := range strings.Split(dump, "\n\n") {
-		if (strings.Contains(g, "sync.(*Mutex).Lock") || strings.Contains(g, "sync.runtime_SemacquireMutex") || strings.Contains(g, "semacquire")) &&
-			strings.Contains(g, "go-libaudit/v2.(*") {
+		nl := strings.IndexByte(g, '\n')
+		if nl < 0 {
+			continue
+		}
+		head := g[:nl]
+		waiting := strings.Contains(head, "[sync.Mutex.Lock") || strings.Contains(head, "[sync.RWMutex.") || strings.Contains(head, "[semacquire")
+		if waiting && strings.Contains(g, "go-libaudit/v2.(*") {
 			return true
 		}
 	}
